@@ -200,7 +200,7 @@ pub fn get_bind_group_data(
     requires
         module_wf(module), // [C11.pre] every type handle of a global is in range (naga's own invariant)
     ensures
-        bgd_post(module, r),» // [C11.post] duplicate -> DuplicateBinding(first repeated index); not dense -> NonConsecutiveBindGroups; else Ok(map) with every bound global once, in its own group, with its own index
+        bgd_post(module, r), // [C11.post] duplicate -> DuplicateBinding(first repeated index); not dense -> NonConsecutiveBindGroups; else Ok(map) with every bound global once, in its own group, with its own index»
 {
     «broadcast use axiom_arena_index_req, axiom_uarena_index_req;»
     // Use a BTree to sort type and field names by group index.
